@@ -152,13 +152,13 @@ CONC_PLAN["thorough"] += [("panic_help", 4000), ("help2w", 40000), ("aba", 5000)
 NOT_APPLICABLE = {}
 MANIFEST_TEXT = {
     "default": {"text": "TLC exhaustively checks the implementation-shaped specification (one action per atomic access) against the observable specification on small configurations; every execution of the real crate under random/PCT/systematic/TLC-derived schedules is validated by TLC against the observable specification, clause by clause."},
-    "C01": {"text": "Model checking: ArcSwapImpl (both read paths, nested helping, address reuse, node reuse) refines ArcSwapAbs incl. 'every held handle is live' on 8 (quick) / 15 (thorough) TLC configurations, 4 seeded model bugs must be caught. Conformance: ~40k (quick) executions of the real crate (random, PCT, all 2- and 3-context-switch schedules of reader x writer pairs, 2100 TLC behaviours replayed at the exact accesses) validated by TLC against ArcSwapAbs: no count operation or dereference after destruction, no destruction while a handle/guard/container refers to the value. Weak-memory clause: only what Trace_Mem sees on interleavings (C07)."},
+    "C01": {"text": "Model checking: ArcSwapImpl (both read paths, nested helping, address reuse, node reuse) refines ArcSwapAbs incl. 'every held handle is live' on 8 (quick) / 15 (thorough) TLC configurations, 4 seeded model bugs must be caught. Conformance: ~40k (quick) executions of the real crate (random, PCT, all 2- and 3-context-switch schedules of reader x writer pairs, 2100 TLC behaviours replayed at the exact accesses) validated by TLC against ArcSwapAbs: no count operation or dereference after destruction, no destruction while a handle/guard/container refers to the value. Weak-memory clause: spec/WeakFast.tla and WeakHelp.tla (stale reads, ISO reading of SeqCst) model-checked under the ordering table extracted from the code (found F7)."},
     "C02": {"text": "Ledger clauses of ArcSwapAbs at every quiescent point of every execution (count + occupied slots = owners, owner-less values destroyed, no slot without guard, no open read transaction), and the Ledger / EnvelopeLinear invariants of ArcSwapImpl under TLC."},
     "C03": {"text": "LoadOK: the returned value was stored in the container at some instant of the call (seen-set semantics, deterministic because the exchange events are in the trace); checked by TLC on ArcSwapImpl (refinement) and on every real execution."},
     "C04": {"text": "Every exchange on the container continues the single write order (old = stored value), one exchange per operation, swap/rcu/cas hand back exactly the displaced value, a result equal to `current` implies an exchange; TLC on ArcSwapImpl (2 writers, rcu x store) and on every real execution."},
     "C05": {"text": "CasOK clauses (replaces iff equal, returns the previous value, success visible by pointer equality, rejected new released) incl. A-B-A schedules (same value stored back between the internal load and the exchange, all 2/3-switch schedules) and every AsRaw form of `current`."},
     "C06": {"text": "RcuOK: the installed value was computed from exactly the displaced one (parent tag), discarded attempts never visible; rcu x rcu / rcu x store under TLC, all 2/3-switch schedules incl. A-B-A on the real crate."},
-    "C07": {"level_note": "interleavings only: defects that need a stale (non-latest) read are not visible to this monitor; VPtr follows Arc's count protocol", "text": "Happens-before monitor (spec/Mem.tla: vector clocks, release sequences, fences, Arc count protocol) over the atomic accesses the real code performed with the orderings it requested: every dereference needs the initialisation of the value in its past, every destruction needs all accesses in its past. Schedules: victim reader x atomic writers at every pair of reader steps with address reuse (found F2), random families, directed needles. The ordering table is extracted and compared with spec/Ord_design.json.", "technique": "TLA+ happens-before specification (Mem.tla) used as a TLC trace monitor over real executions"},
+    "C07": {"level_note": "interleavings only: defects that need a stale (non-latest) read are not visible to this monitor; VPtr follows Arc's count protocol", "text": "Happens-before monitor (spec/Mem.tla: vector clocks, release sequences, fences, Arc count protocol) over the atomic accesses the real code performed with the orderings it requested: every dereference needs the initialisation of the value in its past, every destruction needs all accesses in its past. Schedules: victim reader x atomic writers at every pair of reader steps with address reuse (found F2), random families, directed needles. The ordering table is extracted from the traces and drives the weak-memory models WeakFast.tla / WeakHelp.tla (view-based, stale reads, ISO SeqCst; found F7 and F8).", "technique": "TLA+ happens-before specification (Mem.tla) used as a TLC trace monitor over real executions"},
     "C08": {"text": "LoadSteps invariant of ArcSwapImpl under all interleavings (TLC) and the step bound clause of ArcSwapAbs on real executions under an adversary that completes k writes after every reader step (150-600 writes available, 0-12 guards held, both strategies)."},
     "C09": {"text": "SoloProgress (ENABLED Step(t) whenever everybody else is frozen, from every reachable state) under TLC; on the real crate a randomly chosen thread is run alone from a random point and must finish its operation within SoloStepBound own steps; non-terminating executions are violations."},
     "C10": {"text": "GuardStable/NoUAF clauses for guards: > 8 guards, guards dropped on other threads, creating thread exited, node re-claimed, container dropped first; TLC configurations rw1h, churn, churn2; real executions of the guards/churn/drop families and systematic schedules."},
@@ -661,7 +661,7 @@ EXTRA["C07"] = c07_stage
 EXTRA["C01"] = c01_extra
 PROPS["C07"]["level"] = "model_checking"
 PROPS["C07"]["assumptions"] = PROPS["C07"]["assumptions"] + [
-    "weak-memory clause: spec/WeakFast.tla and WeakHelp.tla (view-based, stale reads, DESIGN section 4) are model-checked with the ordering table extracted from the real code; a counterexample there is reported although it cannot be executed on this hardware"]
+    "weak-memory clause: spec/WeakFast.tla and WeakHelp.tla (view-based, stale reads, SeqCst in the ISO C++20 reading: StrictSC = TRUE, DESIGN section 4) are model-checked with the ordering table extracted from the real code; a counterexample there is reported although it cannot be executed on this hardware (found F7, F8)"]
 
 
 # sequential programs also decide the sequential face of these properties
